@@ -322,6 +322,7 @@ type runner struct {
 type finding struct{ key, what string }
 
 const (
+	finKeyPathPipe   = "C06:pathbadger-pipelined-child-of-nonzero-seqno-candidate-misread"
 	finKeyFinReput   = "C06:badger-finalize-deletes-inherited-node-reput-by-discarded-root"
 	finKeyFinRemoved = "C06:badger-finalize-deletes-removed-node-kept-by-another-finalized-root"
 	finKeyPruneEmpty = "C06:badger-prune-fails-on-version-with-lone-empty-root"
@@ -706,8 +707,18 @@ func (r *runner) oracle(op Op, o *opObs) {
 				continue
 			}
 			r.lastBad[key] = true
-			report("", fmt.Sprintf("%s: pending candidate root (version %d, root #%d) is not readable after %s(%d): has=%v status=%s",
+			k := ""
+			if r.kind == "pathbadger" && op.K == "commit" && op.Old != 0 && ro.has {
+				if oi := r.pl.roots[op.Old]; oi.ver+1 == op.Ver && !r.ref.finalized[oi.ver] && r.pl.roots[op.ID].rid == ro.rid && ro.ver == op.Ver {
+					k = finKeyPathPipe
+				}
+			}
+			report(k, fmt.Sprintf("%s: pending candidate root (version %d, root #%d) is not readable after %s(%d): has=%v status=%s",
 				r.kind, ro.ver, ro.rid, op.K, op.Ver, ro.has, stName(ro.status)))
+			if k != "" {
+				r.stopOracle = true
+				return
+			}
 		case !finalized && !pending && ro.has && ro.status != stExact:
 			if r.lastBad[key] {
 				continue
@@ -915,11 +926,11 @@ func runCase(c Case, pl *plan) caseResult {
 		rp.oracle(op, &opp)
 		res.obsB = append(res.obsB, ob)
 		res.obsP = append(res.obsP, opp)
-		if rb.stopOracle && res.cutAt == len(c.Ops)-1 {
+		if (rb.stopOracle || rp.stopOracle) && res.cutAt == len(c.Ops)-1 {
 			res.cutAt = i
 		}
 		// backend equivalence on histories both accept, up to the first divergence caused by a reported defect
-		if rp.unsupported || diverged || rb.stopOracle {
+		if rp.unsupported || diverged || rb.stopOracle || rp.stopOracle {
 			continue
 		}
 		a, b := ob, opp
@@ -1167,7 +1178,10 @@ func genCase(r *prng.R, profile string) Case {
 		}
 		// pipelining: candidates of the next version derived from the root that is about to be
 		// finalized are committed BEFORE this version is finalized; later competitors follow after
-		if profile != "errors" && vi < nver-1 && r.Chance(45) {
+		// pathbadger resolves the nodes a pipelined child inherits only if its parent holds pending
+		// sequence number 0 (the first batch of that type in the version); other parents are
+		// generated with -pipeline-any only (reported under finKeyPathPipe)
+		if profile != "errors" && vi < nver-1 && (chosenS == candS[0] || pipelineAny) && r.Chance(55) {
 			for j, n := 0, r.Range(1, 2); j < n; j++ {
 				ws := g.writes(g.conts[chosenS], removed)
 				if shareLeaf && r.Chance(30) {
@@ -1316,6 +1330,7 @@ func sameKind(a, b string) bool {
 	return strip(a) == strip(b)
 }
 
+var pipelineAny bool
 var shrinkBudget int
 var memOnly bool
 
@@ -1369,6 +1384,7 @@ func main() {
 	out := flag.String("out", "", "output directory")
 	replay := flag.String("replay", "", "replay a case description (JSON file)")
 	verbose := flag.Bool("v", false, "print per-op observations")
+	flag.BoolVar(&pipelineAny, "pipeline-any", false, "also derive pipelined candidates from a pending candidate that is not the first batch of its version")
 	flag.Parse()
 	if *out == "" {
 		fmt.Fprintln(os.Stderr, "need -out")
@@ -1376,7 +1392,7 @@ func main() {
 	}
 	hdr := "From Verif Require Import Lib.Base NodeDB.Spec NodeDB.Badger.\n"
 	wb := coqout.NewWriter(*out, hdr, "run_case", "case_eqb", 10)
-	sum := coqout.NewSummary("seeded version histories (2-10 versions from start version 0-2, 1-3 state and 0-2 IO candidate roots per version built from the previous finalized root by 0-3 inserts/removes over 8 keys x 2 values incl. re-creation of removed leaves, unchanged and empty roots, the leaf k=v1 placed in both state and IO trees; arbitrary finalized choice; prune lag 1-3) in three profiles (common / badger-only shapes / interleaved invalid calls) on badger and pathbadger on disk; every known root probed and read back after every operation; non-trivial = at least one successful prune and one discarded candidate; distinct = distinct operation lists")
+	sum := coqout.NewSummary("seeded version histories (2-10 versions from start version 0-2, 1-3 state and 0-2 IO candidate roots per version built from the previous finalized root by 0-3 inserts/removes over 8 keys x 2 values incl. re-creation of removed leaves, unchanged and empty roots, the leaf k=v1 placed in both state and IO trees; arbitrary finalized choice; pipelined candidates of version v+1 (1-2 children of the root about to be finalized and an IO root from scratch) committed BEFORE Finalize(v) and competing with candidates committed after it; prune lag 1-3) in three profiles (common / badger-only shapes / interleaved invalid calls) on badger and pathbadger on disk; every known root probed and read back after every operation; non-trivial = at least one successful prune and one discarded candidate; distinct = distinct operation lists")
 	var cases []Case
 	if *replay != "" {
 		b, err := os.ReadFile(*replay)
